@@ -13,7 +13,8 @@ META = {
                    "_InteractionMatrixCallable returns the masked matrix for t < slm_end_time and the full one "
                    "otherwise, slm_end_time = sequence._slm_mask_time[1] or 0.0; emu-mps queries it at a convex "
                    "combination of current_time/target_time, emu-sv at a convex combination of T[k], T[k+1]; "
-                   "the qubit-order optimiser sees the end-of-sequence matrix.",
+                   "the qubit-order optimiser sees the end-of-sequence matrix. "
+                   "The SLM-masked matrix is cloned from the matrix after the cutoff was applied.",
     "not_decided": "symmetry and zero diagonal of Pulser's matrix; the case where the SLM end falls strictly "
                    "inside a step (no query time is exact then)",
     "trusted_base": ["CPython ast", "sa.interp", "sa.algebra"],
